@@ -21,9 +21,13 @@
    model); the two plain accesses are additionally recorded in [plain] (newest first) for
    the race-freedom statement.  The value stored by StoreUint32 and the constant e.done is
    compared with come from Gen.ParConsts (regenerated from the source).  The user function
-   is data: f_k() returns [fval k]; calling it and its return are separate steps, so
-   other threads interleave with a running f.  Ghost fields: [fbegins]/[fends] per entry,
-   [rets] per thread (values returned by the finished calls, newest first). *)
+   is data ([fval k] = None models an f that returns nil): f_k() calls Do(d, f_d) for every d in [deps k], in order (nested Do on OTHER
+   keys, as goproxytest's zipCache -> archiveCache does; different Cache objects are just
+   disjoint key sets), then returns [fval k]; calling it, each nested call and its return are
+   separate steps, so other threads interleave with a running f.  A thread therefore has a
+   stack of suspended frames (k, j): f_k waiting for its j-th nested Do to return, e.mu of k
+   held.  Ghost fields: [fbegins]/[fends] per entry, [rets] per thread (values returned by
+   the finished top-level calls, newest first), [nrets] (the same for nested calls). *)
 From Coq Require Import List Arith Bool.
 From GI Require Import Gen.ParConsts Par.ParWork.
 Import ListNotations.
@@ -36,7 +40,7 @@ Inductive call := CDo (k : key) | CGet (k : key).
 Inductive cpc :=
 | Idle
 | DLoad (k : key) | DLoadOrStore (k : key) | DLoad1 (k : key) | DLock (k : key) | DLoad2 (k : key)
-| DCall (k : key) | DInF (k : key) | DWrite (k : key) (v : value) | DStore (k : key)
+| DCall (k : key) | DInF (k : key) (j : nat) | DWrite (k : key) (v : option value) | DStore (k : key)
 | DUnlock (k : key) | DRead (k : key)
 | GLoad (k : key) | GLoad1 (k : key) | GRead (k : key).
 
@@ -50,7 +54,13 @@ Record entry := mkEntry {
 }.
 Definition entry0 : entry := mkEntry false 0 false None 0 0.
 
-Record thr := mkThr { tpc : cpc; rest : list call; rets : list (call * option value) }.
+Record thr := mkThr {
+  tpc : cpc;
+  stack : list (key * nat);              (* suspended calls of f: (k, index of the next nested Do) *)
+  rest : list call;
+  rets : list (call * option value);
+  nrets : list (key * option value)      (* ghost: results of the nested Do calls *)
+}.
 
 Record cstate := mkC {
   thrs : list thr;
@@ -81,12 +91,24 @@ Definition start (l : list call) : cpc * list call :=
 
 (* the current call returns v *)
 Definition ret (th : thr) (c : call) (v : option value) : thr :=
-  mkThr (fst (start (rest th))) (snd (start (rest th))) ((c, v) :: rets th).
+  mkThr (fst (start (rest th))) (stack th) (snd (start (rest th))) ((c, v) :: rets th) (nrets th).
 
-Definition goto (th : thr) (p : cpc) : thr := mkThr p (rest th) (rets th).
+Definition goto (th : thr) (p : cpc) : thr := mkThr p (stack th) (rest th) (rets th) (nrets th).
+
+(* f_k starts its nested Do(d): the frame (k, j') is suspended *)
+Definition push (th : thr) (k : key) (j' : nat) (d : key) : thr :=
+  mkThr (DLoad d) ((k, j') :: stack th) (rest th) (rets th) (nrets th).
+
+(* Do(k) returns v: to the suspended f if there is one, else to the program *)
+Definition do_return (th : thr) (k : key) (v : option value) : thr :=
+  match stack th with
+  | [] => ret th (CDo k) v
+  | (k', j') :: st => mkThr (DInF k' j') st (rest th) (rets th) ((k, v) :: nrets th)
+  end.
 
 Section Cache.
-Variable fval : key -> value.   (* the value f_k() returns *)
+Variable fval : key -> option value. (* what f_k() returns; None = the nil interface value *)
+Variable deps : key -> list key.    (* the keys f_k() calls Do on, in order, before returning *)
 
 (* one step of thread t; None = t has no step (not a thread, finished, or blocked in Lock) *)
 Definition cstep (s : cstate) (t : thread) : option cstate :=
@@ -106,18 +128,22 @@ Definition cstep (s : cstate) (t : thread) : option cstate :=
           else Some (mkC (set_nth t (goto th (DLoad2 k)) (thrs s)) (upd k (set_locked true (e k)) e) (plain s))
       | DLoad2 k => pcto (if isd (e k) then DUnlock k else DCall k)
       | DCall k =>
-          Some (mkC (set_nth t (goto th (DInF k)) (thrs s)) (upd k (inc_fbegins (e k)) e) (plain s))
-      | DInF k =>
-          Some (mkC (set_nth t (goto th (DWrite k (fval k))) (thrs s)) (upd k (inc_fends (e k)) e) (plain s))
+          Some (mkC (set_nth t (goto th (DInF k 0)) (thrs s)) (upd k (inc_fbegins (e k)) e) (plain s))
+      | DInF k j =>
+          match nth_error (deps k) j with
+          | Some d => Some (mkC (set_nth t (push th k (S j) d) (thrs s)) e (plain s))
+          | None =>
+              Some (mkC (set_nth t (goto th (DWrite k (fval k))) (thrs s)) (upd k (inc_fends (e k)) e) (plain s))
+          end
       | DWrite k v =>
-          Some (mkC (set_nth t (goto th (DStore k)) (thrs s)) (upd k (set_result (Some v) (e k)) e)
+          Some (mkC (set_nth t (goto th (DStore k)) (thrs s)) (upd k (set_result v (e k)) e)
                     ((t, k, true) :: plain s))
       | DStore k =>
           Some (mkC (set_nth t (goto th (DUnlock k)) (thrs s)) (upd k (set_done cache_done_value (e k)) e) (plain s))
       | DUnlock k =>
           Some (mkC (set_nth t (goto th (DRead k)) (thrs s)) (upd k (set_locked false (e k)) e) (plain s))
       | DRead k =>
-          Some (mkC (set_nth t (ret th (CDo k) (result (e k))) (thrs s)) e ((t, k, false) :: plain s))
+          Some (mkC (set_nth t (do_return th k (result (e k))) (thrs s)) e ((t, k, false) :: plain s))
       | GLoad k =>
           if present (e k) then pcto (GLoad1 k)
           else Some (mkC (set_nth t (ret th (CGet k) None) (thrs s)) e (plain s))
@@ -130,7 +156,7 @@ Definition cstep (s : cstate) (t : thread) : option cstate :=
   end.
 
 Definition cinit (progs : list (list call)) : cstate :=
-  mkC (map (fun p => mkThr (fst (start p)) (snd (start p)) []) progs) (fun _ => entry0) [].
+  mkC (map (fun p => mkThr (fst (start p)) [] (snd (start p)) [] []) progs) (fun _ => entry0) [].
 
 Fixpoint crun (sch : list thread) (s : cstate) : option cstate :=
   match sch with
@@ -150,22 +176,32 @@ Definition all_idle (s : cstate) : bool := forallb is_idle (thrs s).
 Definition invisible (p : cpc) : bool :=
   match p with DWrite _ _ | DRead _ | GRead _ => true | _ => false end.
 
-(* ---- termination measure: remaining operations of every thread *)
+(* ---- termination measure: remaining operations of every thread.  [kc k] is (an upper bound of)
+   the number of steps of one Do(k) including the nested calls; it exists when [deps] is acyclic
+   (ParCacheProofs.cost) *)
+Variable kc : key -> nat.
+Definition nested (k : key) (j : nat) : nat :=
+  list_sum (map (fun d => S (kc d)) (skipn j (deps k))).
 Definition rank (p : cpc) : nat :=
   match p with
   | Idle => 0
-  | DLoad _ => 12 | DLoadOrStore _ => 11 | DLoad1 _ => 10 | DLock _ => 9 | DLoad2 _ => 8
-  | DCall _ => 7 | DInF _ => 6 | DWrite _ _ => 5 | DStore _ => 4 | DUnlock _ => 3 | DRead _ => 2
+  | DLoad k => 12 + nested k 0 | DLoadOrStore k => 11 + nested k 0 | DLoad1 k => 10 + nested k 0
+  | DLock k => 9 + nested k 0 | DLoad2 k => 8 + nested k 0 | DCall k => 7 + nested k 0
+  | DInF k j => 6 + nested k j
+  | DWrite _ _ => 5 | DStore _ => 4 | DUnlock _ => 3 | DRead _ => 2
   | GLoad _ => 4 | GLoad1 _ => 3 | GRead _ => 2
   end.
-Definition tweight (th : thr) : nat := rank (tpc th) + 13 * length (rest th).
+Definition call_cost (c : call) : nat := match c with CDo k => kc k | CGet _ => 5 end.
+Definition frame_cost (f : key * nat) : nat := 6 + nested (fst f) (snd f).
+Definition tweight (th : thr) : nat :=
+  rank (tpc th) + list_sum (map frame_cost (stack th)) + list_sum (map call_cost (rest th)).
 Definition psi (s : cstate) : nat := list_sum (map tweight (thrs s)).
 End Cache.
 
 (* classification of program counters by key, used in the statements *)
 Definition holds (k : key) (p : cpc) : bool :=
   match p with
-  | DLoad2 k' | DCall k' | DInF k' | DWrite k' _ | DStore k' | DUnlock k' => Nat.eqb k' k
+  | DLoad2 k' | DCall k' | DInF k' _ | DWrite k' _ | DStore k' | DUnlock k' => Nat.eqb k' k
   | _ => false
   end.
 Definition plain_write (k : key) (p : cpc) : bool :=
